@@ -198,7 +198,8 @@ def run(run):
             return
     # third population: run-time selected references, repeated (the same alternative chosen several times in one
     # parse and in successive parses of one class)
-    selector_profile = {"kinds": {"int": 30, "data": 10, "bits": 5, "ref": 5, "sel": 40, "em": 1}, "p_rep": 0.5, "max_depth": 2}
+    selector_profile = {"kinds": {"int": 30, "data": 10, "bits": 5, "ref": 5, "sel": 40, "em": 1}, "p_rep": 0.5, "max_depth": 2,
+                        "sel_int_without_byte_order": True, "p_class_endianness": 0.6}
     for bench in driver.families(run, rng, selector_profile, VARIANTS, nfam // 5, tag="c01s"):
         run.count("selector_heavy_families")
         held = []
